@@ -355,9 +355,9 @@ def find_def(tree: ast.AST, qualname: str):
     for part in qualname.split("."):
         found = None
         for ch in ast.iter_child_nodes(node):
+            # the last definition wins (typing @overload stubs precede the implementation)
             if isinstance(ch, (ast.FunctionDef, ast.ClassDef, ast.AsyncFunctionDef)) and ch.name == part:
                 found = ch
-                break
         if found is None:
             # look one level deeper (e.g. inside if/try blocks)
             for ch in ast.walk(node):
@@ -497,7 +497,7 @@ class Anchors:
     def render(self, pid: str) -> str:
         head = ("(* GENERATED by /verif/harness/translate.py from the current /repo working tree.\n"
                 "   Do not edit: rewritten on every check run. *)\n"
-                "From Coq Require Import ZArith QArith Qround Bool List.\n"
+                "From Coq Require Import ZArith QArith Qround Qabs Bool List.\n"
                 "From Acryo Require Import Common.PyNum.\n"
                 "Import ListNotations.\nLocal Open Scope Z_scope.\n\n")
         return head + "\n".join(self.items)
